@@ -8,8 +8,11 @@
   seeds.py run <seed-id> [PROP ...]
         applies the patch to /repo, runs ./check PROP --tier quick for the seed's property
         (or the given ones), undoes the patch (git checkout), records the outcome in meta.json
-  seeds.py matrix
-        run for every stored seed; prints the kill matrix
+  seeds.py matrix [jobs]
+        run for every stored seed (scratch worktrees, `jobs` at a time)
+  seeds.py table
+        prints the kill matrix (markdown) from the stored outcomes
+  `run` works on a scratch worktree of /repo's HEAD with the patch applied (UTYPE_REPO) unless --inplace is given.
 
 The scratch worktree lives under a mktemp directory outside /repo and /verif and is removed.
 """
@@ -99,49 +102,102 @@ def _needs(text):
     return ""
 
 
-def run(seed, props=None):
+def _check(p, env=None):
+    t0 = time.time()
+    rc, out = sh("./check %s --tier quick" % p, cwd=VERIF, timeout=3600, env=env)
+    vio = [l for l in out.splitlines() if l.startswith("VIOLATION")]
+    und = [l for l in out.splitlines() if l.startswith("UNDECIDED") or l.startswith("FAULT")]
+    return {"exit": rc, "violations": [v[:300] for v in vio[:6]], "n_violations": len(vio),
+            "undecided": [u[:300] for u in und[:4]], "wall_s": round(time.time() - t0, 1),
+            "confirmed_on_real_code": sum(1 for v in vio if not v.rstrip().endswith("no-failing-input-found"))}, vio, und
+
+
+def _report(seed, p, r, vio, und):
+    lines = ["%s under %s: exit=%d violations=%d (replayed on real code: %d) undecided=%d" % (
+        seed, p, r["exit"], len(vio), r["confirmed_on_real_code"], len(und))]
+    lines += ["    " + v[:260] for v in vio[:3]] + ["    " + u[:260] for u in und[:2]]
+    print("\n".join(lines), flush=True)
+
+
+def run(seed, props=None, inplace=False):
+    """inplace: apply to /repo itself and undo (blocks /repo); default: a scratch worktree of /repo's HEAD, read by the
+    checks through UTYPE_REPO, evidence and replays redirected (VERIF_OUT) so the real tree's evidence is untouched"""
     d = os.path.join(SEEDED, seed)
     meta = json.load(open(os.path.join(d, "meta.json")))
     props = props or [meta["property"]]
-    rc, out = sh("git -C %s status --porcelain -- utype" % REPO)
-    if out.strip():
-        print("refusing: /repo has uncommitted changes under utype/")
-        return 2
-    rc, out = sh("git -C %s apply %s" % (REPO, os.path.join(d, "patch.diff")))
-    if rc:
-        print("patch does not apply to /repo:", out)
-        meta.setdefault("checks", {})["apply"] = "patch no longer applies to HEAD"
-        return 2
     res = {}
-    try:
-        for p in props:
-            t0 = time.time()
-            rc, out = sh("./check %s --tier quick" % p, cwd=VERIF, timeout=3600)
-            vio = [l for l in out.splitlines() if l.startswith("VIOLATION")]
-            und = [l for l in out.splitlines() if l.startswith("UNDECIDED") or l.startswith("FAULT")]
-            res[p] = {"exit": rc, "violations": [v[:300] for v in vio[:6]], "n_violations": len(vio),
-                      "undecided": [u[:300] for u in und[:4]], "wall_s": round(time.time() - t0, 1),
-                      "confirmed_on_real_code": sum(1 for v in vio if not v.rstrip().endswith("no-failing-input-found"))}
-            print("%s under %s: exit=%d violations=%d (replayed on real code: %d) undecided=%d" % (
-                seed, p, rc, len(vio), res[p]["confirmed_on_real_code"], len(und)))
-            for v in vio[:3]:
-                print("    " + v[:260])
-            for u in und[:2]:
-                print("    " + u[:260])
-    finally:
-        sh("git -C %s checkout -- ." % REPO)
+    if inplace:
+        rc, out = sh("git -C %s status --porcelain -- utype" % REPO)
+        if out.strip():
+            print("refusing: /repo has uncommitted changes under utype/")
+            return 2
+        rc, out = sh("git -C %s apply %s" % (REPO, os.path.join(d, "patch.diff")))
+        if rc:
+            print("patch does not apply to /repo:", out)
+            return 2
+        try:
+            for p in props:
+                res[p], vio, und = _check(p)
+                _report(seed, p, res[p], vio, und)
+        finally:
+            sh("git -C %s checkout -- ." % REPO)
+    else:
+        wt = tempfile.mkdtemp(prefix="utype_seedrun_")
+        os.rmdir(wt)
+        outdir = tempfile.mkdtemp(prefix="utype_seedout_")
+        rc, out = sh("git -C %s worktree add -q --detach %s HEAD" % (REPO, wt))
+        if rc:
+            print(out)
+            return 2
+        try:
+            rc, out = sh("git -C %s apply %s" % (wt, os.path.join(d, "patch.diff")))
+            if rc:
+                print("%s: patch does not apply to HEAD: %s" % (seed, out.strip()[:200]))
+                return 2
+            env = dict(os.environ, UTYPE_REPO=wt, VERIF_OUT=outdir)
+            for p in props:
+                res[p], vio, und = _check(p, env)
+                _report(seed, p, res[p], vio, und)
+        finally:
+            sh("git -C %s worktree remove --force %s" % (REPO, wt))
+            shutil.rmtree(wt, ignore_errors=True)
+            shutil.rmtree(outdir, ignore_errors=True)
     meta.setdefault("checks", {}).update(res)
     meta["checked_at"] = time.strftime("%Y-%m-%dT%H:%M:%S")
+    meta["checked_repo_head"] = sh("git -C %s rev-parse --short HEAD" % REPO)[1].strip()
     with open(os.path.join(d, "meta.json"), "w") as f:
         json.dump(meta, f, indent=1)
     return 0
 
 
-def matrix():
+def matrix(jobs=2):
+    from concurrent.futures import ThreadPoolExecutor
+    seeds = [s for s in sorted(os.listdir(SEEDED)) if os.path.exists(os.path.join(SEEDED, s, "meta.json"))]
+    with ThreadPoolExecutor(jobs) as ex:
+        list(ex.map(run, seeds))
+    return 0
+
+
+def table():
+    """markdown kill matrix from the stored outcomes"""
+    print("| seed | file | quick check of its property | replayed on real code |")
+    print("|---|---|---|---|")
     for seed in sorted(os.listdir(SEEDED)):
-        if os.path.exists(os.path.join(SEEDED, seed, "meta.json")):
-            run(seed)
-    # restore evidence of the unchanged tree for the touched properties is the caller's job
+        mp = os.path.join(SEEDED, seed, "meta.json")
+        if not os.path.exists(mp):
+            continue
+        m = json.load(open(mp))
+        c = m.get("checks", {}).get(m["property"])
+        f = ", ".join(os.path.basename(x) for x in m.get("files", []))
+        if not c:
+            print("| %s | %s | not run | |" % (seed, f))
+        elif c["exit"] == 1:
+            ob = c["violations"][0].split("obligation=")[-1].replace(" no-failing-input-found", "")[:110]
+            print("| %s | %s | caught (%d): `%s` | %d |" % (seed, f, c["n_violations"], ob, c["confirmed_on_real_code"]))
+        elif c["exit"] == 2:
+            print("| %s | %s | UNDECIDED (exit 2): `%s` | |" % (seed, f, (c["undecided"] or [""])[0][:110]))
+        else:
+            print("| %s | %s | MISSED | |" % (seed, f))
     return 0
 
 
@@ -153,9 +209,13 @@ def main():
     if a[0] == "confirm":
         return confirm(a[1], a[2], a[3])
     if a[0] == "run":
-        return run(a[1], a[2:] or None)
+        inplace = "--inplace" in a
+        a = [x for x in a if x != "--inplace"]
+        return run(a[1], a[2:] or None, inplace=inplace)
     if a[0] == "matrix":
-        return matrix()
+        return matrix(int(a[1]) if len(a) > 1 else 2)
+    if a[0] == "table":
+        return table()
     print(__doc__)
     return 2
 
